@@ -249,6 +249,8 @@ func ruleEStructRecursion(p *Program, r *Reporter) {
 					case fn != ev:
 						if prm, ok := arg.(*ssa.Parameter); ok && isNode(prm.Type()) {
 							r.Trivial(c.Pos(), key, "the node the helper received from the dispatcher (a child of the dispatcher's node)")
+						} else if partOfParam(arg, 0) {
+							r.Trivial(c.Pos(), key, "a part (field, element, member) of something the helper received: still descending")
 						} else if fn.Name() == "Evaluate" {
 							r.Trivial(c.Pos(), key, "entry point")
 						} else {
@@ -559,4 +561,60 @@ func rulePErrCheck(p *Program, r *Reporter) {
 			}
 		}
 	}
+}
+
+
+// partOfParam: v is obtained from a parameter or captured variable of the function only by taking fields, elements,
+// map members, range values or type assertions (a part of the structure the function was given).
+func partOfParam(v ssa.Value, depth int) bool {
+	if depth > 8 {
+		return false
+	}
+	switch x := v.(type) {
+	case *ssa.Parameter, *ssa.FreeVar:
+		return true
+	case *ssa.UnOp:
+		if x.Op != token.MUL {
+			return false
+		}
+		switch a := x.X.(type) {
+		case *ssa.FieldAddr:
+			return partOfParam(a.X, depth+1)
+		case *ssa.IndexAddr:
+			return partOfParam(a.X, depth+1)
+		case *ssa.FreeVar:
+			return true
+		}
+		return false
+	case *ssa.Field:
+		return partOfParam(x.X, depth+1)
+	case *ssa.Index:
+		return partOfParam(x.X, depth+1)
+	case *ssa.Lookup:
+		return partOfParam(x.X, depth+1)
+	case *ssa.TypeAssert:
+		return partOfParam(x.X, depth+1)
+	case *ssa.Extract:
+		switch t := x.Tuple.(type) {
+		case *ssa.Next:
+			if rg, ok := t.Iter.(*ssa.Range); ok {
+				return partOfParam(rg.X, depth+1)
+			}
+		case *ssa.TypeAssert:
+			return partOfParam(t.X, depth+1)
+		case *ssa.Lookup:
+			return partOfParam(t.X, depth+1)
+		}
+		return false
+	case *ssa.Slice:
+		return partOfParam(x.X, depth+1)
+	case *ssa.Phi:
+		for _, e := range x.Edges {
+			if e != v && !partOfParam(e, depth+1) {
+				return false
+			}
+		}
+		return true
+	}
+	return false
 }
